@@ -132,7 +132,14 @@ class Check:
         self.traces_validated += len(good)
         self.evaluations += len(good)
         for tr in good:
-            clause, line, n = verdicts[tr["id"]]
+            v = verdicts[tr["id"]]
+            clause, line, n = v[0], v[1], v[2]
+            if len(v) > 3:
+                # a second (soft) clause was met earlier on the same trace: report the one this property owns
+                def owned(cl):
+                    return (self.prop in clause_props(cl)) if own is None else (any(cl.startswith(o) for o in own) or self.prop in ALSO.get(cl, ()))
+                if not owned(clause) and owned(v[3]):
+                    clause = v[3]
             if clause == "ok":
                 if nontrivial is None or nontrivial(tr):
                     self.nontrivial.add(trace_key(tr))
@@ -215,7 +222,7 @@ def parse_behaviours(stdout):
     """BEHAVIOUR tuples printed by an Emit invariant -> list of python objects"""
     out = []
     for t in C.split_tuples(stdout, "BEHAVIOUR"):
-        m = re.match(r'<<"BEHAVIOUR",\s*"(.*)">>\s*$', t, re.S)
+        m = re.match(r'<<\s*"BEHAVIOUR",\s*"(.*)"\s*>>\s*$', t, re.S)
         if not m:
             raise C.Machinery("unparsable behaviour %r" % t[:200])
         s = m.group(1).replace('\\"', '"').replace("\\\\", "\\")
